@@ -335,6 +335,11 @@ Next ==
     \/ Scenario = "tempish" /\ \E i \in {"!Sx", "!S"} : Step("AddDataset", [id |-> i])
     \/ Scenario = "tempish" /\ \E i \in {"!Ax", "!A", "!Ay"}, r \in {"!Rx", "r1"} :
           Step("Annotate", [id |-> i, target |-> TB("Text", ById(r), NoRef, Off("B", 1, "B", 2)), data |-> <<DB(ById("!Sx"), ById("!Kx"), ById("!Dx"), StrVal("v1"))>>])
+    \/ Scenario = "batch" /\ \E i \in {"", "q1", "a1"}, d \in {<<>>, <<DB(ById("s1"), ById("k7"), NoRef, StrVal("v7"))>>},
+                                  sub \in {Q("SELECT", "TEXT", "y", <<CAnn("a1", FALSE, FALSE)>>, <<>>), Q("SELECT", "ANNOTATION", "y", <<CRes("r1", FALSE)>>, <<>>),
+                                           Q("SELECT", "ANNOTATION", "y", <<CId("a1")>>, <<>>), Q("SELECT", "ANNOTATION", "y", <<CId("nope")>>, <<>>),
+                                           Q("SELECT", "RESOURCE", "y", <<CId("r1")>>, <<>>), Q("SELECT", "ANNOTATION", "y", <<CKey("s1", "k2", FALSE)>>, <<>>)} :
+          Step("QueryAdd", [id |-> i, data |-> d, sub |-> sub])
     \/ Scenario = "batch" /\ \E items \in Batches, via \in {"iter", "file"} : Step("AnnotateBatch", [items |-> items, via |-> via])
     \/ Scenario \in {"all", "protect"} /\ \E m \in {"checksum", "text", "both", "auto"} : Step("ProtectText", [mode |-> m])
     \/ Scenario \in {"all", "offsets"} /\ Tuning /\ Step("ShrinkToFit", [x |-> 0])
